@@ -178,6 +178,7 @@ def _decide(res, verdict, model, key, Lv, Xv, S, old, sub):
     (res.violations if ok else res.unconfirmed).append({"key": key, "what": what, "replay": {"L": L.tolist(), "X": X.tolist(), "S": S.tolist(), "old": old, "sub": sub}})
 
 
+@symnp.outside_session
 def replay_supercell(L, X, S, old, sub):
     from phonopy.structure.atoms import PhonopyAtoms
     from phonopy.structure.cells import Supercell
@@ -306,6 +307,7 @@ def mm(X, Y):
     return [[sum(X[i][k] * Y[k][j] for k in range(3)) for j in range(3)] for i in range(3)]
 
 
+@symnp.outside_session
 def replay_snf(A):
     from phonopy.structure.snf import SNF3x3
     A = np.array(A, dtype=int)
